@@ -38,6 +38,7 @@ Failing(e) ==
        Cl("C16.zeroWeightInsertChangesNothing", (e.op.name = "ins" /\ e.op.w16 = 0) => e.obs_post = e.obs_pre) \cup
        Cl("C19.clone", e.twin_ok) \cup
        Cl("C19.clearedBehavesLikeFresh: same answers as a freshly constructed digest after the same calls", Has(e, "shadow_same") => e.shadow_same) \cup
+       Cl("C19.configurationGettersNeverChange (a cleared digest keeps its configuration)", Has(e, "cfg_same") => e.cfg_same) \cup
        Cl(P(e, "C15.repeatedReadsIdentical"), o.reread_same) \cup
        Cl(P(e, "C04+C15.everyReadMethodAnswersTheSameAsFirstRead (reads in any order)"), o.first_read_same) \cup
        Cl(P(e, "C04.centroidBound: at most delta + 3 centroids after unit-weight inserts"),
